@@ -626,10 +626,20 @@ def handle (cfg : Cfg) (s : State) (w : Who) (now : Int) : Op → State × Resp
       match findBucket s sb with
       | none => (s, errR "NoSuchBucket")
       | some sbk =>
-        let src : Option Ver := if svid.isEmpty then currentVer (sbk.versions sk) else (findVer (sbk.versions sk) svid).filter (!·.marker)
+        -- the source is resolved as for CopyObject (a delete marker reads as a missing key)
+        let src : Except String Ver :=
+          if svid.isEmpty then
+            match currentVer (sbk.versions sk) with
+            | none => .error (if (sbk.versions sk).isEmpty && cfg.versioning && sbk.versioning == .enabled then "NoSuchVersion" else "NoSuchKey")
+            | some v => .ok v
+          else if !(cfg.versioning && sbk.versioning == .enabled) then .error "InvalidArgument"
+          else if (sbk.versions sk).isEmpty then .error "NoSuchKey"
+          else match findVer (sbk.versions sk) svid with
+            | none => .error "NoSuchVersion"
+            | some v => if v.marker then .error "NoSuchKey" else .ok v
         match src with
-        | none => (s, errR "NoSuchKey")
-        | some v =>
+        | .error e => (s, errR e)
+        | .ok v =>
           let size := v.data.size
           let sliced : Except String Data := match range with
             | none => .ok v.data
